@@ -150,7 +150,10 @@ pub fn run_case(prop: &str, tapes: &mut Tapes) -> Result<CaseResult, HarnessErro
     // Tag interactions (tags into sibling folds, repeated uses, imported tags, dynamic hints):
     // half of the cases of these properties are biased toward many tags and tag operands.
     let bias_tags = crate::runner::wants_tag_bias(prop) && tapes.query.draw(2) == 1;
-    let w = match crate::runner::build_workload_biased(tapes, bias, bias_tags) {
+    // C09: in a fifth of the cases some argument values are deliberately outside what the
+    // harness's typing of the variable admits; the engine decides whether to accept them.
+    let adversarial_args = prop == "C09" && tapes.args.draw(5) == 0;
+    let w = match crate::runner::build_workload_full(tapes, bias, bias_tags, adversarial_args) {
         Ok(w) => w,
         Err(BuildError::SchemaRejected(text, err)) => {
             return Err(HarnessError(format!(
